@@ -21,6 +21,11 @@ type caseC02 struct {
 	Alias string  `json:"alias,omitempty"` // "" | self (argument is the receiver) | copy
 	Nil   bool    `json:"nil,omitempty"`
 	Aim   *Aim    `json:"aim,omitempty"` // white-box: drive one intermediate of the formula to a chosen value
+	// ArgHist > 0 (add/sub with a distinct argument object): the SAME argument object was passed to the same function before, on
+	// another receiver, while it held a related value, and was then changed in place to the value under test: 1 it held -Q and
+	// was negated in place (x and z identical); 2 it held Q+G and G was subtracted; 3 it held Q, was overwritten by Set(-Q),
+	// passed again and negated. What a function remembers about an argument object must not outlive the object's value.
+	ArgHist int `json:"arg_hist,omitempty"`
 }
 
 var c02rels = []string{"independent", "equal", "negation", "p-identity", "q-identity", "both-identity", "double-of", "neg-double-of", "share-y", "self", "nil"}
@@ -90,6 +95,9 @@ var c02 = gen.Register(&gen.Check[caseC02]{
 				c.Aim = AimGen(numDoubleIntermediates).Draw(t, "aim")
 			}
 		}
+		if gen.Chance(t, "argHist", 1, 4) {
+			c.ArgHist = 1 + gen.Pick(t, "argHistKind", 3)
+		}
 		return c
 	},
 	Fixed: func() []caseC02 {
@@ -105,6 +113,9 @@ var c02 = gen.Register(&gen.Check[caseC02]{
 		for _, op := range []string{"add", "sub"} {
 			for _, pq := range [][2]pt.Spec{{g, g}, {g, gz}, {gz, g}, {g, ng}, {gz, ngz}, {g, ngz}, {g, id}, {id, g}, {id, id}, {idm, gz}, {gz, idy}, {idy, idm}, {idw, g}, {g, idw}, {idw, idy}} {
 				out = append(out, caseC02{P: pq[0], Q: pq[1], Op: op, Rel: "fixed"})
+			}
+			for h := 1; h <= 3; h++ {
+				out = append(out, caseC02{P: g, Q: gz, Op: op, Rel: "fixed", ArgHist: h}, caseC02{P: gz, Q: ng, Op: op, Rel: "fixed", ArgHist: h}, caseC02{P: id, Q: g, Op: op, Rel: "fixed", ArgHist: h})
 			}
 			out = append(out, caseC02{P: gz, Q: gz, Op: op, Rel: "self", Alias: "self"}, caseC02{P: idy, Q: idy, Op: op, Rel: "self", Alias: "self"},
 				caseC02{P: gz, Q: g, Op: op, Rel: "nil", Nil: true})
@@ -169,6 +180,34 @@ var c02 = gen.Register(&gen.Check[caseC02]{
 		}
 		if c.Nil {
 			arg = nil
+		}
+		if c.ArgHist > 0 && arg != nil && arg != p.E && (c.Op == "add" || c.Op == "sub") && (c.Aim == nil || c.ArgHist != 2) {
+			o.Class("argument-object-changed-in-place")
+			other := secp256k1.Base().Double()
+			call := func() {
+				if c.Op == "add" {
+					other.Add(arg)
+				} else {
+					other.Subtract(arg)
+				}
+			}
+			switch c.ArgHist {
+			case 1:
+				arg.Negate()
+				call()
+				arg.Negate()
+			case 2:
+				g := secp256k1.Base()
+				arg.Add(g)
+				call()
+				arg.Subtract(g)
+			default:
+				call()
+				neg := arg.Copy().Negate()
+				arg.Set(neg)
+				call()
+				arg.Negate()
+			}
 		}
 		argEnc := ref.Compress(marg)
 		var (
